@@ -74,7 +74,7 @@ fn replay_c11(part: &str, input: &Value) -> Option<Result<Result<(), Viol>, Stri
 }
 
 fn run_c15(ctx: &RunCtx) -> Vec<PartOutcome> {
-    mbchecks::run_spec(ctx, &mbchecks::C15, 5000, 80000)
+    mbchecks::run_spec(ctx, &mbchecks::C15, 3000, 60000)
 }
 fn replay_c15(part: &str, input: &Value) -> Option<Result<Result<(), Viol>, String>> {
     mbchecks::replay_spec(&mbchecks::C15, part, input)
